@@ -14,7 +14,7 @@ NEEDS_JIT = True
 TIMEOUT = {'quick': 1500, 'thorough': 3500}
 RULE = ("families = cycle {F,V,W} x nu_pre=nu_post {1,2,3} x medium "
         "{isotropic, triaxial 1:2:3} x domain {frequency 1 Hz, Laplace}; "
-        "uniform grids on a fixed 1600 m cube, n in {8,16,32} (+64 for the "
+        "uniform grids with cubic cells refining a 1600 m cube (h=100 m at 16^3), n in {8,16,32} (+64 for the "
         "nu=2 frequency-domain families; thorough: all to 64, 128 for nu=2, "
         "and non-cubic 2^a x 3*2^b x 5*2^c shapes); rho(n) = max per-cycle "
         "residual reduction after the first cycle; verdict: exit==0, rho(n) <= "
@@ -67,15 +67,19 @@ def plan(tier, seed):
                           'shapes': [[16, 12, 20], [32, 24, 40], [64, 48, 80]],
                           'base': [16, 12, 20]})
                 b.append({'id': fam_id(f)+'-nc2', 'family': f,
-                          'shapes': [[8, 24, 10], [16, 48, 20], [64, 24, 80]],
+                          'shapes': [[8, 24, 10], [16, 48, 20], [32, 96, 40]],
                           'base': [8, 24, 10]})
     return b
 
 
-def solve_one(f, shape):
+def solve_one(f, shape, base=None):
     import emg3d
-    L = 1600.0
-    hs = [np.full(n, L/n) for n in shape]
+    # cubic cells: the coarsest member of a family has h = 100 m (16^3 for
+    # the cubes), every other member refines it.
+    base = base or [16, 16, 16]
+    h = 100.0*base[0]/shape[0] if shape[0] >= base[0] else 100.0*16/shape[0]
+    hs = [np.full(n, h) for n in shape]
+    L = [n*h for n in shape]
     grid = emg3d.TensorMesh(hs, origin=(0, 0, 0))
     if f['medium'] == 'iso':
         model = emg3d.Model(grid, property_x=1.0)
@@ -83,7 +87,8 @@ def solve_one(f, shape):
         model = emg3d.Model(grid, property_x=1.0, property_y=2.0,
                             property_z=3.0)
     freq = 1.0 if f['domain'] == 'f' else -2*np.pi
-    sf = emg3d.get_source_field(grid, (700.0, 650.0, 750.0, 30.0, 20.0), freq)
+    sf = emg3d.get_source_field(
+        grid, (0.44*L[0], 0.41*L[1], 0.47*L[2], 30.0, 20.0), freq)
     _, info = emg3d.solve(model, sf, sslsolver=False, semicoarsening=False,
                           linerelaxation=False, cycle=f['cycle'],
                           nu_pre=f['nu'], nu_post=f['nu'], tol=1e-9, maxit=50,
@@ -101,7 +106,7 @@ def run_batch(batch):
     calib = json.loads(CALIB.read_text()) if CALIB.exists() else None
     res = {}
     for shape in batch['shapes']:
-        res[tuple(shape)] = solve_one(f, shape)
+        res[tuple(shape)] = solve_one(f, shape, batch['base'])
         rec.case()
         rec.event('solves')
     base = res[tuple(batch['base'])]
@@ -176,7 +181,8 @@ def finalize(merged, tier):
 
 
 def _cal_batch(b):
-    return b['id'], {'x'.join(map(str, sh)): solve_one(b['family'], sh)
+    return b['id'], {'x'.join(map(str, sh)): solve_one(b['family'], sh,
+                                                       b['base'])
                      for sh in b['shapes']}
 
 
